@@ -393,3 +393,122 @@ def method_objects_tested(eng, f) -> List[Tuple[ast.AST, str, str]]:
                     if m is not None and not any((dotted(d) or "").split(".")[-1] in ("property", "cached_property") for d in m.node.decorator_list):
                         out.append((t, prog.classes[u[1]].name, o.attr))
     return out
+
+
+def groupby_unsorted(fn_node: ast.AST) -> List[ast.Call]:
+    """calls of itertools.groupby whose input is not visibly sorted (sorted(...) directly, or a local bound only to sorted(...)):
+    groupby groups ADJACENT equal keys only, so a key that re-appears later starts a second group"""
+    out = []
+    defs = None
+    for n in ast.walk(fn_node):
+        if isinstance(n, ast.Call) and (dotted(n.func) or "").split(".")[-1] == "groupby" and n.args:
+            a0 = n.args[0]
+            srt = isinstance(a0, ast.Call) and dotted(a0.func) == "sorted"
+            if isinstance(a0, ast.Name):
+                defs = defs or Defs(fn_node)
+                vs_ = [v for k, v, st in defs.values(a0.id) if v is not None]
+                srt = bool(vs_) and all(isinstance(v, ast.Call) and dotted(v.func) == "sorted" for v in vs_)
+            if not srt:
+                out.append(n)
+    return out
+
+
+def _pair_key(target: ast.AST) -> Optional[str]:
+    if isinstance(target, (ast.Tuple, ast.List)) and target.elts and isinstance(target.elts[0], ast.Name):
+        return target.elts[0].id
+    return None
+
+
+def keyed_pairs_use(eng, f, call: ast.Call, depth: int = 2) -> Tuple[str, str]:
+    """what happens to the (key, group) pairs produced by `call` (an iterable of pairs with possibly REPEATED keys):
+    'overwrite' - they land in a mapping where a later pair replaces an earlier one with the same key (dict(...), {k: v for ...},
+                  d[k] = v);  'merge' - pairs with the same key are accumulated (setdefault/append/extend/+=);  'unknown'"""
+    pm = parent_map(f.node)
+    par = pm.get(id(call))
+    # dict(pairs)
+    if isinstance(par, ast.Call) and dotted(par.func) == "dict" and par.args and par.args[0] is call:
+        return "overwrite", "dict(%s)" % ast.unparse(call)[:50]
+    if isinstance(par, ast.comprehension) and par.iter is call:
+        comp = pm.get(id(par))
+        k = _pair_key(par.target)
+        if isinstance(comp, ast.DictComp) and k and isinstance(comp.key, ast.Name) and comp.key.id == k:
+            return "overwrite", ast.unparse(comp)[:70]
+        if isinstance(comp, (ast.GeneratorExp, ast.ListComp)) and k and isinstance(comp.elt, ast.Tuple) and comp.elt.elts and isinstance(comp.elt.elts[0], ast.Name) and comp.elt.elts[0].id == k:
+            cp = pm.get(id(comp))
+            if isinstance(cp, ast.Call) and dotted(cp.func) == "dict":
+                return "overwrite", ast.unparse(cp)[:70]
+        return "unknown", "comprehension"
+    if isinstance(par, (ast.For, ast.AsyncFor)) and par.iter is call:
+        k = _pair_key(par.target)
+        if not k:
+            return "unknown", "loop target is not a (key, group) pair"
+        verdicts = []
+        for st in par.body:
+            for n in ast.walk(st):
+                if isinstance(n, ast.Assign):
+                    for t in n.targets:
+                        if isinstance(t, ast.Subscript) and isinstance(t.slice, ast.Name) and t.slice.id == k:
+                            verdicts.append(("overwrite", ast.unparse(n)[:70]))
+                elif isinstance(n, ast.Call) and isinstance(n.func, ast.Attribute) and n.func.attr in ("extend", "append", "update", "add"):
+                    recv = n.func.value
+                    if isinstance(recv, ast.Call) and isinstance(recv.func, ast.Attribute) and recv.func.attr == "setdefault" and recv.args and isinstance(recv.args[0], ast.Name) and recv.args[0].id == k:
+                        verdicts.append(("merge", ast.unparse(n)[:70]))
+                    elif isinstance(recv, ast.Subscript) and isinstance(recv.slice, ast.Name) and recv.slice.id == k:
+                        verdicts.append(("merge", ast.unparse(n)[:70]))
+                elif isinstance(n, ast.AugAssign) and isinstance(n.target, ast.Subscript) and isinstance(n.target.slice, ast.Name) and n.target.slice.id == k:
+                    verdicts.append(("merge", ast.unparse(n)[:70]))
+                elif isinstance(n, (ast.Yield,)) and n.value is not None and depth > 0:
+                    v = n.value
+                    if isinstance(v, ast.Tuple) and v.elts and isinstance(v.elts[0], ast.Name) and v.elts[0].id == k:
+                        # the enclosing generator hands the pairs on: look at what its callers do with them
+                        sub = []
+                        for cs in eng.cg.callers_of(f.qual):
+                            sub.append(keyed_pairs_use(eng, cs.caller, cs.node, depth - 1))
+                        if not sub:
+                            verdicts.append(("unknown", "generator of pairs without a resolved caller"))
+                        verdicts += sub
+        for v in verdicts:
+            if v[0] == "overwrite":
+                return v
+        if verdicts and all(v[0] == "merge" for v in verdicts):
+            return verdicts[0]
+        return "unknown", "pairs are not stored by key here"
+    return "unknown", "use of the pairs not recognised"
+
+
+def head_reads_in_descent(fn_node: ast.AST) -> List[Tuple[ast.While, ast.AST, str]]:
+    """`c = X.a; acc = X.f; while ...: acc op= <X.f>; c = c.a` - a loop that walks down a chain from X through attribute `a`
+    but accumulates, at every level, the attribute `f` of the HEAD X instead of the level it is at (the cursor): every level
+    contributes the head's value.  -> [(loop, offending expression, text)]"""
+    out = []
+    for w in ast.walk(fn_node):
+        if not isinstance(w, ast.While):
+            continue
+        steps = {}
+        for st in w.body:
+            if isinstance(st, ast.Assign) and len(st.targets) == 1 and isinstance(st.targets[0], ast.Name) and isinstance(st.value, ast.Attribute) and isinstance(st.value.value, ast.Name) and st.value.value.id == st.targets[0].id:
+                steps[st.targets[0].id] = st.value.attr
+        if len(steps) != 1:
+            continue
+        cur, a = next(iter(steps.items()))
+        # where the cursor starts: cur = X.a before the loop
+        heads = set()
+        for st in ast.walk(fn_node):
+            if isinstance(st, ast.Assign) and len(st.targets) == 1 and isinstance(st.targets[0], ast.Name) and st.targets[0].id == cur and isinstance(st.value, ast.Attribute) and st.value.attr == a and isinstance(st.value.value, ast.Name) and st.value.value.id != cur:
+                heads.add(st.value.value.id)
+        if len(heads) != 1:
+            continue
+        head = next(iter(heads))
+        for st in w.body:
+            val = None
+            if isinstance(st, ast.AugAssign) and isinstance(st.target, ast.Name):
+                val = st.value
+            elif isinstance(st, ast.Assign) and len(st.targets) == 1 and isinstance(st.targets[0], ast.Name) and isinstance(st.value, ast.BinOp) and any(isinstance(x, ast.Name) and x.id == st.targets[0].id for x in ast.walk(st.value)):
+                val = st.value
+            if val is None:
+                continue
+            names = {x.id for x in ast.walk(val) if isinstance(x, ast.Name)}
+            reads_head = [x for x in ast.walk(val) if isinstance(x, ast.Attribute) and isinstance(x.value, ast.Name) and x.value.id == head]
+            if reads_head and cur not in names:
+                out.append((w, st, ast.unparse(st)))
+    return out
